@@ -533,16 +533,16 @@ func TestVerif_C17_UDP(t *testing.T) {
 	r.Rule("SOCKS5 UDP associations through real agents; endings: clients close (control connection closed), or the ingress agent disappears (agent stopped) while associations are open; " +
 		"then the UDP bookkeeping of every remaining agent (relay indices, exit associations, ingress tables) is sampled until all-zero; udp idle timeout 2 s; " +
 		"non-trivial = scenario where UDP bookkeeping was observed non-zero before the ending; distinct by (topology, ending, association count)")
-	r.Assume("idle-timeout driven cleanup is given 12 s of unchanged bookkeeping (udp idle timeout 2 s) before stable non-zero is judged")
+	r.Assume("idle-timeout driven cleanup is given 9 s of unchanged bookkeeping (udp idle timeout 2 s) before stable non-zero is judged")
 	var tps []mkUDPTopo
 	for _, tp := range mkUDPTopos() {
 		if !tp.Prone {
 			tps = append(tps, tp)
 		}
 	}
-	r.Cases("udp", r.N(4, 24), func(ci int, rng *verifkit.Rand) {
+	r.Cases("udp", r.N(6, 30), func(ci int, rng *verifkit.Rand) {
 		tp := tps[ci%len(tps)]
-		ending := []string{"clients-close", "ingress-agent-stops"}[(ci/len(tps))%2]
+		ending := []string{"clients-close", "ingress-agent-stops", "link-dies-at-open-ack"}[(ci/len(tps))%3]
 		if len(tp.Spec.Names) < 3 && ending == "ingress-agent-stops" {
 			ending = "clients-close"
 		}
@@ -560,6 +560,24 @@ func TestVerif_C17_UDP(t *testing.T) {
 			return
 		}
 		defer m.stop()
+		if ending == "link-dies-at-open-ack" {
+			// the exit's link to the requesting peer dies just before the exit writes a
+			// UDP_OPEN_ACK (fault injected from the write tap): the association it has just
+			// created for an open it cannot acknowledge must be released
+			exit := m.nodes[tp.Exit].a
+			var once sync.Once
+			tap.mu.Lock()
+			tap.onPayload = func(ev *mkFrameEv, payload []byte) {
+				if ev.Write && ev.Local == exit.ID() && ev.Type == protocol.FrameUDPOpenAck {
+					once.Do(func() {
+						if c := exit.peerMgr.GetPeer(ev.Remote); c != nil {
+							c.Close()
+						}
+					})
+				}
+			}
+			tap.mu.Unlock()
+		}
 		clients, out, err := mkRunUDPScenario(m, tp, echo, rng, rng.Range(1, 5), rng.Range(5, 30), uint64(ci)<<16)
 		if err != nil {
 			for _, c := range clients {
@@ -581,12 +599,12 @@ func TestVerif_C17_UDP(t *testing.T) {
 		for _, c := range clients {
 			c.close()
 		}
-		last, zero, unchanged := mkUDPSettle(remaining, 40*time.Second, 12*time.Second)
+		last, zero, unchanged := mkUDPSettle(remaining, 40*time.Second, 9*time.Second)
 		r.Add("udp_scenarios", 1)
 		r.Add("udp_peak_entries_seen", peak)
 		r.Add("udp_ending_"+ending, 1)
 		if !zero {
-			if unchanged < 12*time.Second {
+			if unchanged < 9*time.Second {
 				r.Inconclusive(fmt.Sprintf("%s: UDP bookkeeping still changing when the settle watchdog fired: %+v", tp.Name, last))
 			} else {
 				desc := ""
